@@ -163,6 +163,12 @@ OutStrEsc(v) ==
     [] v.t = "arr"   -> JoinStr([i \in DOMAIN v.v |-> OutStrEsc(v.v[i])], "")
     [] OTHER         -> Escape(OutStr(v))
 
+\* values whose string form the documentation does not fix (see UNSPECIFIED.md):
+\* hashes (and drops), also inside arrays
+RECURSIVE Unprintable(_)
+Unprintable(v) == \/ v.t \in {"hash", "forloop"}
+                  \/ (v.t = "arr" /\ \E i \in DOMAIN v.v : Unprintable(v.v[i]))
+
 \* str() as filters see it (string_filter decorator): like OutStr
 ToStr(v) == OutStr(v)
 
